@@ -166,6 +166,15 @@ SPEC += [
      }},
 ]
 
+# tables.py: the dispatch tests of template building (the function itself works on iterators and mutable
+# descriptor objects: notes/Tie.md, "Not done")
+_spec_of('tables')['fragments'] = {
+    'build_is_sequence': {'func': '_descriptors_from_ids_iter', 'expr': 'Compare', 'of': (0, 3), 'params': {'id_': 'int'}},
+    'build_is_operator': {'func': '_descriptors_from_ids_iter', 'expr': 'Compare', 'of': (1, 3), 'params': {'id_': 'int'}},
+    'build_is_replication': {'func': '_descriptors_from_ids_iter', 'expr': 'Compare', 'of': (2, 3), 'params': {'id_': 'int'}},
+    'replication_is_delayed': {'class': 'TableR', 'method': 'lookup', 'expr': 'Compare', 'params': {'id_': 'int'}},
+}
+
 _spec_of('dataquery')['small_methods'] = {
     'NodePath': {'attrs': {'path_string': 'str', 'subset_slice': 'opt[intorslice]', 'components': 'list[PathComponent]'},
                  'methods': {'slice_to_str': {'params': {'slc': 'opt[intorslice]'}},
